@@ -122,6 +122,24 @@ CHECKS = {
    note="A-writers (registered writers do not raise / do not touch the builder), A-str, file-object and Path.open('wb+') contracts assumed and exercised by a BOUNDED "
         "stand-in on the real OS (random histories over real files/streams; not proof). List lemmas nodup_snoc/nodup_middle are proved in lemmas/ListLemmas.lean. "
         "Known finding KF-C14-path-reconnect-truncates (reopening a path truncates) is carved out by its region."),
+ "C15": dict(category="other",
+   text="Sequential safety part only. Proved per call: _checksum is reduce(xor, map(ord, s)); _send(cmd, k, True) on a serial device transmits exactly "
+        "'N<k> <cmd>*<xor of \"N<k> <cmd>\">' + newline and stores that frame under k (M110 frames are not stored); _send(frame, k, False) retransmits a stored frame byte for "
+        "byte; _reset_line_numbers sets lineno to 0 and transmits 'N-1 M110 N-1*cs'; one step of _sendnext transmits at most one line — with 0 <= resendfrom < lineno the STORED "
+        "frame of line resendfrom (resendfrom advances by one, numbering and job position do not move), otherwise the comment-stripped next job line numbered with lineno, after "
+        "which lineno and the job index advance by exactly one (comment-only / host-command lines consume no number; lineno never skips). NOT decided: everything quantified over "
+        "thread interleavings and firmware latency, and the liveness clause 'the firmware ends up accepting every line'.",
+   note="A-atomic (fields shared with the read thread are stable within one call except across the busy-wait, which havocs them), A-str, functools.reduce/map/ord, regex comment "
+        "stripping and str(int) as uninterpreted functions, no extra event handlers registered. The history argument 'numbering-faithful source + accept-only-expected-N firmware "
+        "=> accepted log is a prefix of the job' is stated in DESIGN.md §4 C15 and is not machine-checked.", technique="contract-based deductive verification (per-call, sequential); schedules not decided"),
+ "C16": dict(category="other",
+   text="Sequential part only. Proved per call: PrintrunWriter.write performs exactly [ack.clear, device.send(strip(decode(statement))) once, ack.wait] and then raises (and clears) "
+        "a stored DeviceError; nothing is sent after a shutdown request; _abort_on_device_error raises-iff; _wait_for_pending_operations returns only when nothing is pending "
+        "(else raises); disconnect(wait=True) waits before tearing down and tears down on every path; SerialWriter/SocketWriter hand the same bytes to the printrun writer once; "
+        "printcore.send enqueues the command exactly once, unmodified; the reply handler acknowledges ok..., turns error|alarm|!!... into a DeviceError + acknowledgement, and "
+        "does neither for other lines. NOT decided: that the acknowledgement observed belongs to that very statement under arbitrary latency / unsolicited replies / connection loss.",
+   note="A-atomic, threading.Event / queue.Queue as environment, str.strip/lower as uninterpreted functions. Observation (not a C16 violation): SerialWriter.disconnect(wait) ignores "
+        "its argument and always waits.", technique="contract-based deductive verification (per-call, sequential); schedules not decided"),
  "C17": dict(category="proof",
    text="Device._readline_buf and Device._readline_socket (loop contract for its `while True`): with bytes as sequences and the socket file as an "
         "assumed contract (read(n) returns None | b'' | 1..n bytes appended to the ghost stream), every call is proved to satisfy the conservation "
@@ -166,8 +184,8 @@ NOT_APPLICABLE = {
  
  
  
- "C15": "checks for this property are still being built in this round (will be claimed once its units discharge); not a statement about applicability",
- "C16": "checks for this property are still being built in this round (will be claimed once its units discharge); not a statement about applicability",
+ 
+ 
  
  
  
